@@ -187,6 +187,7 @@ Proof.
     + induction attrs as [|[n i] l IH]; constructor; [apply irel_refl | assumption].
     + induction entries as [|[k i] l IH]; constructor; [apply CStep, cstep_refl | apply irel_refl | assumption].
     + induction items; constructor; [apply irel_refl | assumption].
+    + induction es; constructor; [apply CStep, cstep_refl | assumption].
   - destruct i; constructor; [apply prel_refl|].
     destruct fallback; constructor. apply CStep, cstep_refl.
 Qed.
